@@ -10,6 +10,10 @@
 #include <stdio.h>
 
 volatile long vf_alloc_calls, vf_fail_at, vf_fail_from, vf_fail_hits;
+/* errno noise: a SUCCESSFUL allocation leaves errno = ENOMEM behind, as glibc's malloc does when brk() fails and it falls back to mmap();
+ * results derived from errno after a successful allocation become visible */
+volatile int vf_errno_noise; volatile long vf_errno_noise_hits;
+#define NOISE(p) do { if (vf_errno_noise && (p)) { errno = ENOMEM; vf_errno_noise_hits++; } } while (0)
 volatile long vf_alloc_budget, vf_bytes_budget;
 volatile int vf_budget_tripped;
 volatile long vf_foreign_frees;
@@ -109,6 +113,7 @@ void *__wrap_malloc(size_t n) {
     if (should_fail(n)) { errno = ENOMEM; return NULL; }
     void *p = __real_malloc(n);
     ladd(p, n);
+    NOISE(p);
     return p;
 }
 void *__wrap_calloc(size_t a, size_t b) {
@@ -116,6 +121,7 @@ void *__wrap_calloc(size_t a, size_t b) {
     if (should_fail(a * b)) { errno = ENOMEM; return NULL; }
     void *p = __real_calloc(a, b);
     ladd(p, a * b);
+    NOISE(p);
     return p;
 }
 void *__wrap_realloc(void *old, size_t n) {
@@ -127,6 +133,7 @@ void *__wrap_realloc(void *old, size_t n) {
     void *p = __real_realloc(old, n);
     if (p) ladd(p, n);
     else if (old) ladd(old, osz);
+    NOISE(p);
     return p;
 }
 char *__wrap_strdup(const char *s) {
@@ -135,6 +142,7 @@ char *__wrap_strdup(const char *s) {
     if (should_fail(n)) { errno = ENOMEM; return NULL; }
     char *p = __real_strdup(s);
     ladd(p, n);
+    NOISE(p);
     return p;
 }
 void __wrap_free(void *p) {
